@@ -28,6 +28,24 @@ def run(props, timeout=180, only=None, confirm=True, threads=8, tests=None):
             break
         left_out += [b for b in bad if b not in left_out]
     res['not_built'] = left_out
+    # a scenario listed in known_findings.json as an OPEN finding (unit "scenario", fn = the scenario file, obligation = the test function)
+    # fails by definition on the unchanged tree: it is reported as KNOWN-FINDING by the caller, not as a failure. Any other failing test -
+    # also another test of the same file - stays a failure.
+    res['known'] = []
+    try:
+        kf = [k for k in json.load(open(os.path.join(ROOT, 'known_findings.json'))).get('findings', []) if k.get('status') == 'open' and k.get('unit') == 'scenario']
+    except Exception:
+        kf = []
+    if kf and res.get('failed'):
+        keep = []
+        for f in res['failed']:
+            name = f['test'].replace(' (did not finish)', '').split('::')[-1]
+            k = next((k for k in kf if k.get('property') in props and os.path.basename(k.get('fn', '')) == os.path.basename(f.get('scenario') or '') and k.get('obligation') == name), None)
+            if k and ' (did not finish)' not in f['test']:
+                res['known'].append({'finding': k, 'test': f['test'], 'scenario': f.get('scenario')})
+            else:
+                keep.append(f)
+        res['failed'] = keep
     return res
 
 
@@ -129,7 +147,7 @@ def _run(props, files, timeout, confirm, threads, tests=None):
             again_tests = [f['test'].replace(' (did not finish)', '').split('::')[-1] for f in res['failed']]
             second = run(props, timeout=timeout, only=again_files, confirm=False, threads=2, tests=again_tests)
             if not second.get('inconclusive'):
-                names2 = {f['test'].replace(' (did not finish)', '').split('::')[-1] for f in second['failed']}
+                names2 = {f['test'].replace(' (did not finish)', '').split('::')[-1] for f in list(second['failed']) + list(second.get('known', []))}
                 kept = [f for f in res['failed'] if f['test'].replace(' (did not finish)', '').split('::')[-1] in names2]
                 res['unconfirmed_failures'] = [f['test'] for f in res['failed'] if f not in kept]
                 res['passed'] += len(res['failed']) - len(kept)
